@@ -70,9 +70,11 @@ type VC struct {
 	strOrder  []string
 	cellN     int
 	typeTags  map[string]int
+	tagTypes  map[string]types.Type
 	nameCount map[string]int
 	inputs    map[string]string
 	unsup     []string
+	topRets   []retRec
 }
 
 func (vc *VC) note(format string, a ...interface{}) {
@@ -144,6 +146,10 @@ func (vc *VC) oblige(st *State, kind, name, desc string, pos token.Position, goa
 		name = fmt.Sprintf("%s#%d", name, n)
 	}
 	vc.obls = append(vc.obls, &Obligation{Name: name, Kind: kind, Desc: desc, Pos: pos, PC: st.pc, Goal: goal, Mark: vc.sc.mark(), Func: vc.root})
+	if kind == "nopanic" && goal != "false" {
+		// execution continues only if the operation did not panic
+		vc.assume(st, goal)
+	}
 }
 
 // mergeStates joins edge states.  conds[i] is the full path condition of edge i.
@@ -439,7 +445,9 @@ func (vc *VC) wf(st *State, v Val) string {
 			return and(sx("<=", "0", v.S), sx("<", v.S, st.next))
 		}
 	case KIface:
-		return and(sx("<=", "0", v.If[0]), sx("<", v.If[1], st.next), implies(eq(v.If[0], "0"), eq(v.If[1], "0")))
+		// trusted: values received from outside the analysed code never hold a typed nil
+		// pointer inside a non-nil interface
+		return and(sx("<=", "0", v.If[0]), sx("<", v.If[1], st.next), eq(eq(v.If[0], "0"), eq(v.If[1], "0")))
 	case KStruct, KTuple:
 		var cs []string
 		for _, f := range v.F {
@@ -449,15 +457,15 @@ func (vc *VC) wf(st *State, v Val) string {
 	case KScalar:
 		if b, ok := v.T.Underlying().(*types.Basic); ok && b.Info()&types.IsString != 0 {
 			vc.declStr()
-			return and(sx("bvsle", bvInt(0, 64), sx("str.len", v.S)), sx("bvsle", sx("str.len", v.S), bvConst(new(big.Int).Lsh(big.NewInt(1), 40), 64)))
+			return and(sx("bvsle", bvInt(0, 64), sx("s.len", v.S)), sx("bvsle", sx("s.len", v.S), bvConst(new(big.Int).Lsh(big.NewInt(1), 40), 64)))
 		}
 	}
 	return "true"
 }
 
 func (vc *VC) declStr() {
-	vc.sc.declareFun("str.len", []string{sortStr}, sortIdx)
-	vc.sc.declareFun("str.at", []string{sortStr, sortIdx}, bvSort(8))
+	vc.sc.declareFun("s.len", []string{sortStr}, sortIdx)
+	vc.sc.declareFun("s.at", []string{sortStr, sortIdx}, bvSort(8))
 }
 
 // strLit interns a string literal.
@@ -468,10 +476,10 @@ func (vc *VC) strLit(s string) string {
 	vc.declStr()
 	name := quote(fmt.Sprintf("lit!%d!%s", len(vc.strLits), sanitize(s)))
 	vc.sc.declare(name, sortStr)
-	vc.sc.assert(eq(sx("str.len", name), bvInt(int64(len(s)), 64)))
+	vc.sc.assert(eq(sx("s.len", name), bvInt(int64(len(s)), 64)))
 	if len(s) <= 48 {
 		for i := 0; i < len(s); i++ {
-			vc.sc.assert(eq(sx("str.at", name, bvInt(int64(i), 64)), bvInt(int64(s[i]), 8)))
+			vc.sc.assert(eq(sx("s.at", name, bvInt(int64(i), 64)), bvInt(int64(s[i]), 8)))
 		}
 	}
 	for _, o := range vc.strOrder {
@@ -505,6 +513,10 @@ func (vc *VC) typeTag(t types.Type) string {
 	}
 	n := len(vc.typeTags) + 1
 	vc.typeTags[k] = n
+	if vc.tagTypes == nil {
+		vc.tagTypes = map[string]types.Type{}
+	}
+	vc.tagTypes[fmt.Sprint(n)] = t
 	return fmt.Sprint(n)
 }
 
